@@ -159,18 +159,30 @@ def refresh_tables():
 # ----------------------------------------------------------------------------
 # Coq
 
-def run_translator():
+def run_translator(prop=None):
     """Runs every translator/gen_*.py (each regenerates one coq/theories/Gen*.v from /repo's
-    current source; gen_tables.py writes Generated.v)."""
+    current source; gen_tables.py writes Generated.v).  A failing translator breaks only the
+    properties whose Coq closure contains a file that translator writes."""
     ok = True
     outs = []
     tdir = os.path.join(VERIF, "translator")
+    closure = None
     for fn in sorted(os.listdir(tdir)):
         if fn.startswith("gen_") and fn.endswith(".py"):
             rc, out = sh([sys.executable, os.path.join(tdir, fn), os.path.join(BUILD, "tables.json")],
                          env={"VERIF_REPO": REPO})
             outs.append(out.strip())
-            ok = ok and rc == 0
+            if rc != 0:
+                relevant = True
+                if prop is not None:
+                    if closure is None:
+                        closure = set(os.path.basename(p) for p in coq_closure(prop))
+                    written = set(re.findall(r"\b(Gen\w*\.v|Generated\.v)", open(os.path.join(tdir, fn)).read()))
+                    relevant = bool(written & closure) or not written
+                if relevant:
+                    ok = False
+                else:
+                    outs.append("[%s failed but writes nothing %s depends on]" % (fn, prop))
     return ok, "\n".join(o for o in outs if o)
 
 
